@@ -22,6 +22,19 @@ def translate_inertia_tensor(displacement, inertia_tensor, volume):
     return inertia_tensor + volume * (inner * np.eye(3) - outer)
 
 
+def _validate_scale(scale):
+    """Ensure that a length scale factor is a positive, finite number.
+
+    Size setters rescale a shape by a factor derived from the requested value. A
+    target of zero, a negative target or NaN would collapse, mirror or poison the
+    shape, so such requests are refused before anything is modified.
+    """
+    if not (np.isfinite(scale) and scale > 0):
+        raise ValueError(
+            "The requested value must be positive and finite to rescale the shape."
+        )
+
+
 def rotate_order2_tensor(rotation, tensor):
     """Transform a tensor with a similarity transformation."""
     return rotation @ tensor @ rotation.T
